@@ -41,7 +41,7 @@ func genC19(rt *rapid.T) c19Case {
 	labels := map[string]bool{}
 	c.NPrins = rapid.IntRange(2, 4).Draw(rt, "nprins")
 	thr := rapid.IntRange(1, min(3, c.NPrins)).Draw(rt, "threshold")
-	c.FileRule = rapid.IntRange(0, 3).Draw(rt, "filerule") == 0
+	c.FileRule = rapid.IntRange(0, 2).Draw(rt, "filerule") == 0
 	globalThr := 0
 	if rapid.IntRange(0, 3).Draw(rt, "global") == 0 {
 		globalThr = rapid.IntRange(1, 3).Draw(rt, "globalthr")
@@ -62,10 +62,16 @@ func genC19(rt *rapid.T) c19Case {
 	w.Events = append(w.Events, kit.Event{Kind: "policy", Policy: 1, Signer: -1})
 	// feature history: 1-3 commits
 	nc := rapid.IntRange(1, 3).Draw(rt, "ncommits")
+	// mixed authorship of the protected path: one commit by a person the file rule
+	// trusts, another by someone it does not, both changing files under the rule
+	mixed := c.FileRule && nc >= 2 && rapid.IntRange(0, 2).Draw(rt, "mixed") == 0
+	if mixed {
+		labels["protected_path_changed_by_trusted_and_untrusted_commits"] = true
+	}
 	tree := 100
 	for i := 0; i < nc; i++ {
 		a, d := (tree-100)%5, ((tree-100)/5)%5
-		if c.FileRule && rapid.Bool().Draw(rt, "touchsrc") {
+		if c.FileRule && (mixed || rapid.Bool().Draw(rt, "touchsrc")) {
 			a = a%4 + 1
 			labels["feature_touches_protected_path"] = true
 		} else {
@@ -73,6 +79,13 @@ func genC19(rt *rapid.T) c19Case {
 		}
 		tree = 100 + a + 5*d
 		csigner := rapid.SampledFrom([]int{0, 1, 2, 3, 4, wgUnknownKey + 1}).Draw(rt, "csigner") // 0 = unsigned, k+1 = key k
+		if mixed {
+			if i%2 == 0 {
+				csigner = rapid.SampledFrom([]int{1, 2}).Draw(rt, "trustedsigner") // dev0 / dev1: trusted by protect-src
+			} else {
+				csigner = rapid.SampledFrom([]int{0, 3, 4, wgUnknownKey + 1}).Draw(rt, "untrustedsigner")
+			}
+		}
 		ev := kit.Event{Kind: "push", Ref: "refs/heads/feature", Tree: tree, Signer: -1, CSigner: csigner}
 		if i == 0 {
 			ev.Base = "refs/heads/main"
